@@ -33,6 +33,9 @@ for m in sorted(glob.glob(os.path.join(root, 'seeded', pid + '-*', 'meta.json'))
     tried.append('- ' + ' '.join(str(d.get('summary')).split())[:400])
 if rnd and tried:
     T += "\n\nChanges of this kind have ALREADY been produced in an earlier round — do not repeat them or close variants; look for different mechanisms, different functions among the anchors, different parts of the property statement (also the less obvious clauses), and subtler triggers:\n" + "\n".join(tried).replace('{', '{{').replace('}', '}}')
+hint = os.environ.get("MUT_HINT")
+if hint:
+    T += "\n\nAdditional guidance for this round: " + hint.replace('{', '{{').replace('}', '}}')
 open('/tmp/mutprompt%s-%s.txt' % (rnd, pid), 'w').write(T.format(wt=wt, title=p['title'], statement=p['statement'],
      quant=p['quantifier']['text'], files=', '.join(p['anchors']['files']), n=n, pid=pid, pkgs=pkgs))
 print('/tmp/mutprompt%s-%s.txt' % (rnd, pid))
